@@ -70,7 +70,8 @@ TextMats ==
   Mats(AB, AB, TVals3) \cup Mats(AB, CB, TVals2) \cup Mats(AB, ABC, TVals2) \cup Mats(ABC, AB, TVals2)
   \cup Mats(A1, AB, TVals3) \cup Mats(AB, A1, TVals3) \cup Mats(A1, A1, TVals3)
   \cup Mats(<<FOO, W("b")>>, <<W("b"), FOO>>, TVals2)
-  \cup Mats(ABC, ABC, IF Rich THEN TVals3 ELSE TVals2)
+  \cup Mats(ABC, ABC, TVals2)
+  \cup (IF Rich THEN Mats(ABC, BCA, TVals2) \cup Mats(AB, ABC, TVals3) \cup Mats(ABC, AB, TVals3) ELSE {})
 Cmt1 == <<"#", "sp", "M", "a", "t", "r", "i", "x", "sp", "-", "1", "sp", "2">>
 Cmt2 == <<"sp", "sp", "#", "a", "sp", "b">>
 Style(lead, hlead, seps, trail, pre, mid, post, plus, zero, fin) ==
